@@ -19,7 +19,7 @@ class C07(ActorCasesMixin, E1Prop):
 
     def make_history(self, rng):
         from ..batchdb import gen
-        return gen.history(rng, cancel_bias=0.07, special=0.25, weights={'jp-cancel-path': 8.0}, knobs={'jp_jobs': 0.4})
+        return gen.history(rng, cancel_bias=0.07, special=0.25, weights={'jp-cancel-path': 8.0}, knobs={'jp_jobs': 0.4, 'cancel_between_bunches': 0.3, 'group_bunches': 0.6})
 
     def nontrivial(self, r):
         return any(t in r.tags for t in self.nontrivial_tags)
